@@ -63,6 +63,8 @@ def make(cfg, seed):
     spec["log"] = False
     sysm = build(spec)
     sim = sysm.mc
+    if sim.max_cycles >= 2 and sim.moves:  # a forced occupant: its slot is drawn too
+        next(iter(sim.moves.values())).minimum_count = 1
     sim.default_logger = log
     sim.default_logger.add_mc_fields(sim)
     return sim, sysm.atoms, log
